@@ -27,12 +27,20 @@ SUITES = {
     "fault_plain": ("faults", "plain", [],                    "release", (18, 60), (0, 0)),
     "fault_two":   ("faults", "heap",  ["--two"],             "debug",   (18, 72), (0, 0)),
     "fault_set":   ("faults", "heap",  ["--set", "--two"],    "debug",   (18, 72), (0, 0)),
+    # crash points x structural phases: state = one of the matrix's 11 phases, operation = one of the 18 (map) /
+    # 12 (set) templates; 198 / 132 states = every template in every phase (thorough tier; the quick tier walks
+    # through half of them)
+    "fault_phase": ("faults", "heap",  ["--phases", "--two"], "debug",   (99, 396), (0, 0)),
+    "fault_phase_rel": ("faults", "plain", ["--phases"],       "release", (44, 198), (0, 0)),
+    "fault_phase_set": ("faults", "heap", ["--phases", "--set", "--two"], "debug", (66, 264), (0, 0)),
+    "fault_phase_zst": ("faults", "zst", ["--phases"],         "debug",   (22, 88),  (0, 0)),
     "fault_zst":   ("faults", "zst",   [],                    "debug",   (9, 45),   (0, 0)),
     "par_heap":    ("random", "heap",  ["--par"],            "release", (12, 60), (150, 60)),
     "par_two":     ("random", "plain", ["--par", "--two"],   "debug",   (12, 60), (150, 60)),
     "par_set":     ("random", "heap",  ["--par", "--set", "--two"], "release", (12, 60), (150, 60)),
     "serde_map":   ("random", "heap",  ["--serde", "--two"],  "debug",   (12, 60), (150, 60)),
     "serde_set":   ("random", "heap",  ["--serde", "--two", "--set"], "debug", (12, 60), (150, 60)),
+    "serde_map_rel": ("random", "plain", ["--serde", "--two"], "release", (6, 30), (60, 60)),
     "serde_zst":   ("random", "zst",   ["--serde", "--two", "--set"], "release", (6, 30), (100, 100)),
     "meta_heap":   ("meta",   "heap",  [],                    "debug",   (12, 60), (0, 0)),
     "meta_plain":  ("meta",   "plain", [],                    "release", (12, 60), (0, 0)),
@@ -182,7 +190,7 @@ PROPS = {
     # after an injected panic the semantic/safety monitors are part of "the map stays memory-safe and
     # self-consistent, later operations behave normally": their failures after a fault count for C07
     # (unless the fault-free control segments fail too: then the panic is not to blame)
-    "C07": dict(suites=["fault_heap", "fault_heap_rel", "fault_plain", "fault_two", "fault_set", "fault_zst", "defects"], mc=["Fault", "CloneFrom"],
+    "C07": dict(suites=["fault_phase", "fault_phase_rel", "fault_phase_set", "fault_phase_zst", "fault_heap", "fault_heap_rel", "fault_plain", "fault_two", "fault_set", "fault_zst", "defects"], mc=["Fault", "CloneFrom"],
                 after_fault=True),
     # (entry suites: iteration right after entry / raw-entry calls on old-table elements next to the move cursor)
     "C08": dict(suites=["mx_heap", "mx_plain_rel", "mx_set", "mx_zst_set", "core_heap", "rel_heap", "core_plain", "set_heap", "core_zst", "entry_heap", "entry_plain"], mc=["Iters", "Small"]),
@@ -197,7 +205,7 @@ PROPS = {
                 monitors=["eq_is_content_equality", "debug_shows_contents", "lookup_result", "set_contains_result",
                           "iter_yields_each_once", "iter_exact_len", "iter_complete", "len_is_sum", "contents"]),
     "C15": dict(suites=["par_heap", "par_two", "par_set"], mc=["Par"]),
-    "C16": dict(suites=["serde_map", "serde_set", "serde_zst"], mc=["Small"]),
+    "C16": dict(suites=["serde_map_rel", "serde_map", "serde_set", "serde_zst"], mc=["Small"]),
 }
 
 PROPS["C17"] = dict(suites=["diff_plain", "diff_heap", "diff_two", "diff_set", "diff_zst", "limits_dbg", "limits_rel", "defects"], mc=["CountR8", "Overflow", "OverflowDbg"])
